@@ -168,7 +168,7 @@ static void register_waiting()
       add_handle(act.get(), it->second, g_cur_op[it->second]);
   }
 }
-static void scan()
+static void scan(bool only_done = false)
 {
   using simgrid::kernel::activity::State;
   register_waiting();
@@ -178,6 +178,8 @@ static void scan()
     auto* impl = h.impl.get();
     State st = impl->get_state();
     if (st == State::WAITING || st == State::READY || st == State::RUNNING)
+      continue;
+    if (only_done && st != State::DONE)
       continue;
     h.reported = true;
     emit("done a" + std::to_string(h.actor) + "." + std::to_string(h.op) + " " + impl->get_state_str());
@@ -394,12 +396,15 @@ static int run_case(const Case& c, std::string& out)
   for (int i = 0; i < 8; i++)
     g_mbox.push_back(sg4::Mailbox::by_name("mb" + std::to_string(i)));
 
-  // the signal fires after the kills: print the cause first, then what the scan sees
+  // the signal fires after the kills: print the cause first, then what the scan sees.  Normal completions that nobody
+  // logged yet (the scan is lazy) happened before the event, since turning a resource off completes nothing: print them first.
   sg4::Host::on_onoff_cb([](sg4::Host const& h) {
+    scan(true);
     emit(std::string("sig ") + (h.is_on() ? "on " : "off ") + h.get_cname());
     scan();
   });
   sg4::Link::on_onoff_cb([](sg4::Link const& l) {
+    scan(true);
     emit(std::string("sig ") + (l.is_on() ? "on " : "off ") + l.get_cname());
     scan();
   });
